@@ -137,6 +137,10 @@ func sweepInterned(mark int64) {
 		skMemo.Delete(k)
 		return true
 	})
+	instMemo.Range(func(k, _ any) bool {
+		instMemo.Delete(k)
+		return true
+	})
 }
 
 func termHash(t *Term) uint64 {
